@@ -21,21 +21,45 @@ FILE *g_trace_file = stdout;
 // fault misaligned_caller_buffers: callers owe the library only the alignment of an Element (8 bytes)
 static bool g_misalign = false;
 
+// fault adjacent_caller_buffers: callers often carve source, destination and scratch out of ONE allocation, so
+// that the buffers touch (dst == src + n*ncols).  While a carve area is active, HBufs are consecutive views of it.
+struct Carve
+{
+    uint64_t *base = nullptr;
+    size_t cap = 0, used = 0;
+    bool backwards = false;
+    bool active = false;
+};
+static Carve g_carve;
+
 struct HBuf
 {
     uint64_t *base;
     uint64_t *ptr;
     size_t n;
     std::string name;
+    bool view = false;
     HBuf(size_t n_, const char *name_) : n(n_), name(name_)
     {
+        if (g_carve.active && g_carve.used + n <= g_carve.cap)
+        {
+            view = true;
+            base = nullptr;
+            ptr = g_carve.backwards ? g_carve.base + (g_carve.cap - g_carve.used - n) : g_carve.base + g_carve.used;
+            g_carve.used += n;
+            return;
+        }
         // misaligned: one extra word in front, so the buffer starts at 8 (mod 16); its end still coincides
         // with the end of the block (overruns stay byte-exact, an underrun of <= 8 bytes is not seen)
         size_t pad = g_misalign ? 1 : 0;
         base = (uint64_t *)sim::buf_alloc((n + pad) * 8, name_, false, 0);
         ptr = base + pad;
     }
-    ~HBuf() { sim::buf_free(base); }
+    ~HBuf()
+    {
+        if (!view)
+            sim::buf_free(base);
+    }
     HBuf(const HBuf &) = delete;
     HBuf &operator=(const HBuf &) = delete;
     uint64_t *p() { return ptr; }
@@ -56,7 +80,7 @@ struct HBuf
     }
     void load(const std::vector<uint64_t> &v, size_t count) { std::copy(v.begin(), v.begin() + count, ptr); }
     std::vector<uint64_t> vec() const { return std::vector<uint64_t>(ptr, ptr + n); }
-    bool canary_ok(std::string &what) const { return sim::buf_check(base, what); }
+    bool canary_ok(std::string &what) const { return view ? true : sim::buf_check(base, what); }
 };
 
 static uint64_t fnv(const void *data, size_t bytes, uint64_t h = 0xcbf29ce484222325ULL)
@@ -147,6 +171,7 @@ struct Ctx
     bool icv_perturbed = false;
     std::set<std::string> seen_memory;
     uint64_t last_out_digest = 0;
+    std::set<std::string> mem_history_keys; // memory findings of the current op that a fresh object under the same schedule does not show
     sim::IcvState host_icv{4, 64, false}; // ICVs as the host application alone would have left them (machine + HOST_ICV ops)
     explicit Ctx(const Plan &p) : plan(p) {}
 
@@ -240,7 +265,9 @@ static void account_memory(Ctx &c, const Op &op, const sim::OpStats &st, const c
         if (!c.seen_memory.insert(std::to_string(c.op_index) + key).second)
             continue;
         std::vector<std::string> sprops = {"C18"};
-        if (ref && !mism && !ref_keys.count(memory_key(s)) && st.teams.size() && *std::max_element(st.teams.begin(), st.teams.end()) > 1)
+        if (ref && c.mem_history_keys.count(memory_key(s)))
+            sprops.push_back("C19"); // only the object with a history shows it
+        else if (ref && !mism && !ref_keys.count(memory_key(s)) && st.teams.size() && *std::max_element(st.teams.begin(), st.teams.end()) > 1)
             sprops.push_back("C12");
         c.violation(mism ? "mismatched-free" : badfree ? "bad-free" : "stray-write", sprops, op, std::string("heap layer (") + which + ")", s);
     }
@@ -254,7 +281,9 @@ static void account_memory(Ctx &c, const Op &op, const sim::OpStats &st, const c
         std::vector<std::string> props = {"C18"};
         if (op.kind != plan::K_DELETE_OBJECT && op.kind != plan::K_HOST_ICV)
             props.push_back(prop_of(op));
-        if (ref && !ref_keys.count(key) && st.teams.size() && *std::max_element(st.teams.begin(), st.teams.end()) > 1)
+        if (ref && c.mem_history_keys.count(key))
+            props.push_back("C19"); // a fresh object under the same schedule stays in bounds: earlier calls on this object caused it
+        else if (ref && !ref_keys.count(key) && st.teams.size() && *std::max_element(st.teams.begin(), st.teams.end()) > 1)
             props.push_back("C12"); // only the team execution goes out of bounds: its memory effects depend on team / schedule
         c.violation(uaf ? "use-after-free" : "out-of-bounds", props, op, std::string("poison map of the simulated heap (") + which + ")", s);
     }
@@ -320,6 +349,8 @@ static void account_main(Ctx &c, const Op &op, const sim::OpStats &st, uint64_t 
         r.faults["dirty_caller_buffers"]++;
     if (op.misaligned_bufs)
         r.faults["misaligned_caller_buffers"]++;
+    if (op.adjacent_bufs && (op.kind == plan::K_NTT || op.kind == plan::K_INTT || op.kind == plan::K_ROUNDTRIP || op.kind == plan::K_EXTEND))
+        r.faults["adjacent_caller_buffers"]++;
     if (st.nested_regions)
         r.probes.insert("nested_region");
     if (st.max_concurrent >= 3)
@@ -374,6 +405,10 @@ static TOut run_transform(Ctx &c, const Op &op, void *obj, const sim::OpSim &cfg
     if (op.kind == plan::K_EXTEND)
     {
         bool inplace = op.dst == plan::D_SRC;
+        size_t total_e = (inplace ? out_elems : in_elems) + (inplace ? 0 : out_elems) + (op.buffer ? out_elems : 0);
+        HBuf AREA(is_main && op.adjacent_bufs ? total_e : 0, "caller-area");
+        if (is_main && op.adjacent_bufs)
+            g_carve = Carve{AREA.p(), total_e, 0, (op.garbage_seed & 1) != 0, true};
         HBuf X(inplace ? out_elems : in_elems, inplace ? "inout" : "input");
         X.fill(dirty_bufs, derive_seed(gseed, 1));
         X.load(in, in_elems);
@@ -381,6 +416,7 @@ static TOut run_transform(Ctx &c, const Op &op, void *obj, const sim::OpSim &cfg
         O.fill(dirty_bufs, derive_seed(gseed, 2));
         HBuf B(op.buffer ? out_elems : 0, "buffer");
         B.fill(dirty_bufs, derive_seed(gseed, 3));
+        g_carve.active = false;
         uint64_t *outp = inplace ? X.p() : O.p();
         t.st = simulate(cfg, [&] {
             void *o = obj ? obj : shim::ntt_new((op.maxn == 0 && op.n == 0) ? 0 : std::max<uint64_t>(op.maxn, std::max<uint64_t>(op.n, 1)), op.obj_threads, op.kind == plan::K_EXTEND ? 1 : op.extension);
@@ -389,12 +425,16 @@ static TOut run_transform(Ctx &c, const Op &op, void *obj, const sim::OpSim &cfg
                 shim::ntt_delete(o);
         });
         t.out = inplace ? X.vec() : O.vec();
-        check_canaries(c, op, {&X, &O, &B}, is_main);
+        check_canaries(c, op, {&X, &O, &B, &AREA}, is_main);
         return t;
     }
 
     // NTT / INTT / ROUNDTRIP
     size_t ext = noop ? std::max<size_t>(in_elems, 8) : in_elems;
+    size_t total_n = ext * 2 + (op.buffer ? ext : 0) + (op.kind == plan::K_ROUNDTRIP ? ext : 0) + (op.kind == plan::K_ROUNDTRIP && op.buffer2 ? ext : 0);
+    HBuf AREA(is_main && op.adjacent_bufs ? total_n : 0, "caller-area");
+    if (is_main && op.adjacent_bufs)
+        g_carve = Carve{AREA.p(), total_n, 0, (op.garbage_seed & 1) != 0, true};
     HBuf S(ext, "src");
     S.fill(dirty_bufs, derive_seed(gseed, 1));
     if (!noop)
@@ -407,6 +447,7 @@ static TOut run_transform(Ctx &c, const Op &op, void *obj, const sim::OpSim &cfg
     D2.fill(dirty_bufs, derive_seed(gseed, 4));
     HBuf B2(op.kind == plan::K_ROUNDTRIP && op.buffer2 ? ext : 0, "buffer2");
     B2.fill(dirty_bufs, derive_seed(gseed, 5));
+    g_carve.active = false;
     if (noop)
     {
         t.noop_before = S.vec();
@@ -461,7 +502,7 @@ static TOut run_transform(Ctx &c, const Op &op, void *obj, const sim::OpSim &cfg
                             "src word " + std::to_string(first_diff_bits(t.src_after, src_before)) + " changed");
         }
     }
-    check_canaries(c, op, {&S, &D, &B, &D2, &B2}, is_main);
+    check_canaries(c, op, {&S, &D, &B, &D2, &B2, &AREA}, is_main);
     return t;
 }
 
@@ -573,7 +614,44 @@ static void exec_transform(Ctx &c, const Op &op)
         do_main();
     }
     uint64_t trip = std::max<uint64_t>(op.kind == plan::K_EXTEND ? op.n : op.n, 1);
+    c.mem_history_keys.clear();
+    if (op.obj >= 0 && (!m.st.oob.empty() || !m.st.stray.empty()))
+    {
+        // memory findings of the simulated run that the reference run does not have: team / schedule, or history?
+        std::set<std::string> refk, only_main;
+        for (auto &x : ref.st.oob)
+            refk.insert(memory_key(x));
+        for (auto &x : ref.st.stray)
+            refk.insert(memory_key(x));
+        for (auto &x : m.st.oob)
+            if (!refk.count(memory_key(x)))
+                only_main.insert(memory_key(x));
+        for (auto &x : m.st.stray)
+            if (!refk.count(memory_key(x)) && x.compare(0, 10, "mismatched") != 0)
+                only_main.insert(memory_key(x));
+        if (!only_main.empty())
+        {
+            sim::IcvState icv_now = sim::icv_save();
+            sim::OpSim fc = sim_cfg_of(op);
+            fc.step_limit = mc.step_limit;
+            fc.step_estimate = mc.step_estimate;
+            sim::icv_restore(icv_pre);
+            g_misalign = op.misaligned_bufs;
+            TOut f = run_transform(c, op, nullptr, fc, op.dirty_bufs, op.garbage_seed, in, false);
+            g_misalign = false;
+            sim::icv_restore(icv_now);
+            std::set<std::string> fk;
+            for (auto &x : f.st.oob)
+                fk.insert(memory_key(x));
+            for (auto &x : f.st.stray)
+                fk.insert(memory_key(x));
+            for (auto &k : only_main)
+                if (!fk.count(k))
+                    c.mem_history_keys.insert(k);
+        }
+    }
     account_main(c, op, m.st, trip, &ref.st);
+    c.mem_history_keys.clear();
 
     // --- probes ---------------------------------------------------------------------------------
     unsigned logn = ilog2(std::max<uint64_t>(op.n, 1));
